@@ -1,6 +1,7 @@
 """Shared machinery of the World-A checks: swarm configuration, traffic plans, result packing."""
 import json
 import random
+import struct
 import collections
 
 from simkit.runner import h64
@@ -70,6 +71,11 @@ def swarm_cfg(rng, nclients=None, entry=None, long_latency=True):
     mtu = rng.choice(MTUS) if rng.random() < 0.7 else rng.randrange(512, 1501)
     n = nclients or rng.choice([1, 1, 2, 3])
     lat = rng.choice([0.0, 0.001, 0.01, 0.03, 0.06, 0.12, 0.25, 0.4]) if long_latency else rng.choice([0.0, 0.005, 0.02, 0.05])
+    interval = rng.choice([1 / 120, 1 / 60, 1 / 60, 1 / 30, 1 / 10])
+    # the library's client reads one datagram per update(): a client slower than the server's
+    # per-client send rate (one datagram per tick, capped at 60/s) can never catch up - an
+    # application-level overload, not a network fault, so the swarm keeps client dt <= that period
+    dts = [d for d in (1 / 240, 1 / 120, 1 / 60, 1 / 60, 1 / 30, 1 / 15) if d <= max(interval, 1 / 60) + 1e-12]
     cfg = {
         "mtu": mtu,
         "entry": entry or rng.choice(["bare", "twisted", "udpserver"]),
@@ -77,9 +83,9 @@ def swarm_cfg(rng, nclients=None, entry=None, long_latency=True):
         "jitter": rng.choice([0.0, 0.0, 0.002, 0.02, 0.08, 0.2]),
         "reactor_lag": rng.choice([0.0, 0.0, 0.001, 0.01]),
         "instr_cost": rng.choice([1e-6, 1e-6, 5e-6, 2e-5]),
-        "server": {"interval": rng.choice([1 / 120, 1 / 60, 1 / 60, 1 / 30, 1 / 10]),
+        "server": {"interval": interval,
                    "offset": 1.7e9 + rng.randrange(0, 10 ** 6), "rate": 1.0 + rng.choice([0, 0, 1e-3, -1e-3])},
-        "clients": [{"dt": rng.choice([1 / 240, 1 / 120, 1 / 60, 1 / 60, 1 / 30, 1 / 15, 1 / 5]),
+        "clients": [{"dt": rng.choice(dts),
                      "offset": 1.7e9 + rng.randrange(-10 ** 5, 10 ** 6),
                      "rate": 1.0 + rng.choice([0, 0, 1e-3, -1e-3]),
                      "t0": rng.random() * 0.05} for _ in range(n)],
@@ -236,7 +242,7 @@ class UdpCheck:
 
 
 def gen_traffic(rng, i, tier, *, nclients=None, retries=(0, 1, -1), n_msgs=None, cb_p=0.7, big=None,
-                fault=True, server_sends=True, entry=None, heavy=False, long_latency=True, settle=None,
+                fault=True, server_sends=True, entry=None, heavy=False, long_latency=True, settle=None, rtt_safe=True,
                 client_apis=("send", "send", "send_guaranteed", "send_default")):
     """One traffic case: connect, fault phase with sends inside it, heal, quiet settle period."""
     cfg = swarm_cfg(rng, nclients=nclients, entry=entry, long_latency=long_latency)
@@ -279,8 +285,76 @@ def gen_traffic(rng, i, tier, *, nclients=None, retries=(0, 1, -1), n_msgs=None,
         plan.append(op)
     rtt = 2 * (cfg["latency"] + cfg["jitter"]) + 2 * cfg["reactor_lag"]
     tick = max([cfg["server"]["interval"]] + [cl["dt"] for cl in cfg["clients"]])
+    # liveness oracles assume what a deployment must configure anyway: message timeout > worst RTT
+    # (with RTT >= timeout every datagram is declared lost before its ack can arrive and the
+    # retry modes retransmit forever).  Longer timeouts are set through the public setters.
+    mt = 1.0
+    need = 1.5 * (rtt + 3 * tick) + 0.15
+    if rtt_safe and need > mt:
+        mt = 2.0 if need <= 2.0 else 3.0
+    elif rng.random() < 0.15:
+        mt = rng.choice([0.5, 2.0]) if need <= 0.5 else 2.0
+    if mt != 1.0:
+        cfg["server"]["msg_timeout"] = mt
+        for cl in cfg["clients"]:
+            cl["msg_timeout"] = mt
+    cfg["msg_timeout"] = mt
     if settle is None:
-        settle = 6 * (1.0 + rtt + 0.1 + 2 * tick) + 4.0
+        settle = 6 * (mt + rtt + 0.1 + 2 * tick) + 4.0
     cfg["duration"] = round(t_fault1 + settle, 3)
     cfg["t_heal"] = t_fault1
     return {"cfg": cfg, "plan": plan}
+
+
+class FragExpiryProbe(Monitor):
+    """Notices when a receiver throws away an *incomplete* fragment context (FragmentReceiver expiry).
+
+    Used to attribute 'guaranteed message never delivered' / 'True callback without delivery' to that
+    specific history, so that the known finding about it does not hide other causes."""
+
+    def attach(self, world):
+        self.w = world
+        self.purged = []        # (t, receiving conn name, frag_id, fragments held, frag_count, idle_s, age_s)
+        CB = conn_mod.ConnectionBase
+        orig = CB._recvAppFragment
+        mon = self
+
+        def _recvAppFragment(conn, msgseq, fragment):
+            before = {k: (sum(1 for f in v.fragments if f is not None), v.frag_count, v.ctime)
+                      for k, v in conn.received_fragments.items()}
+            try:
+                fid = struct.unpack(">H", fragment[:2])[0] if len(fragment) >= 2 else None
+            except Exception:       # noqa
+                fid = None
+            now = conn.clock()
+            r = orig(conn, msgseq, fragment)
+            for k, (held, cnt, ctime) in before.items():
+                if k not in conn.received_fragments and k != fid:
+                    mon.purged.append((world.k.now, world.conn_name(conn), k, held, cnt, now - ctime, "other"))
+                    world.probe("incomplete_fragment_context_purged")
+            if fid is not None and fid in before and fid not in conn.received_fragments:
+                held, cnt, ctime = before[fid]
+                if held + 1 < cnt:      # it was not completed by this fragment: it expired
+                    mon.purged.append((world.k.now, world.conn_name(conn), fid, held + 1, cnt, now - ctime, "self"))
+                    world.probe("incomplete_fragment_context_purged")
+            elif fid is not None and fid not in before and fid not in conn.received_fragments:
+                cnt = struct.unpack(">H", fragment[4:6])[0] if len(fragment) >= 6 else 0
+                if cnt > 1:
+                    mon.purged.append((world.k.now, world.conn_name(conn), fid, 1, cnt, 0.0, "self-new"))
+            return r
+        world.seams._set(CB, "_recvAppFragment", _recvAppFragment)
+
+    def purged_on(self, conn_name):
+        return [p for p in self.purged if p[1] == conn_name]
+
+    def cause(self, w, rec, rx_conn_name):
+        """Attribute a lost fragmented message to the purge of *its own* reassembly context, or not."""
+        fid = rec.get("frag_id")
+        if fid is None:
+            return "cause=unknown", []
+        mine = [p for p in self.purged if p[1] == rx_conn_name and p[2] == fid and p[0] >= rec["t"]]
+        if not mine:
+            return "cause=unknown", []
+        how = "by-other-message" if all(p[6] == "other" for p in mine) else "by-own-fragment"
+        return "cause=receiver-purged-incomplete-fragment-context:" + how, \
+            [(round(p[0], 3), p[2], p[3], p[4], round(p[5], 3), p[6]) for p in mine[:4]]
